@@ -68,6 +68,7 @@ type Stream struct {
 	resultChan     chan []map[string]any    // Result channel
 	seenResults    *sync.Map
 	done           chan struct{} // Used to close processing goroutines
+	stopFinished   chan struct{} // Closed when the Stop call that does the teardown has finished it
 	sinkWorkerPool chan func()   // Sink worker pool to avoid blocking
 
 	// Thread safety control
@@ -264,9 +265,21 @@ func (s *Stream) Stop() {
 	s.startMu.Lock()
 	if !atomic.CompareAndSwapInt32(&s.stopped, 0, 1) {
 		s.startMu.Unlock()
-		return // Already stopped, return directly
+		// Another Stop is tearing the stream down (or has done so). Stop is a barrier
+		// for every caller: wait until that teardown is complete - it is bounded by
+		// the grace period itself - instead of returning while sinks may still run.
+		if s.stopFinished != nil {
+			select {
+			case <-s.stopFinished:
+			case <-time.After(defaultStopGrace):
+			}
+		}
+		return
 	}
 	s.startMu.Unlock()
+	if s.stopFinished != nil {
+		defer close(s.stopFinished)
+	}
 	verifhook.At("stop.cas", s, 0, 0, 0)
 
 	close(s.done)
